@@ -31,6 +31,14 @@ def gen(rng, tier):
     for v in (1, True, 1.0, 0, False, 0.0, "1", "True"):
         for w in (True, 12, "1", 1, None):
             cases.append({"f": [v, 7], "t": [w, 12], "argv": []})
+    # deeply nested documents (outcomes that depend on interpreter-global limits must not depend on what ran before)
+    def nest(d, leaf):
+        x = leaf
+        for _ in range(d):
+            x = [x]
+        return x
+    for d, ext in ((60, "json"), (100, "json5"), (120, "json"), (100, "yaml"), (230, "json"), (90, "json5")):
+        cases.append({"f": nest(d, 1), "t": nest(d, 2), "argv": [], "ext": ext})
     for _ in range(n):
         a = gen_doc(rng, maxd=4)
         b = mutate(rng, a) if rng.random() < 0.8 else gen_doc(rng)
@@ -59,14 +67,19 @@ def impl(case):
     import graphtage
     from graphtage import json as gj
     from harness import clirun
-    files = {"a.json": {"text": json.dumps(case["f"])}, "b.json": {"text": json.dumps(case["t"])}}
-    argv = ["--no-status"] + case["argv"] + ["a.json", "b.json"]
+    ext = case.get("ext", "json")
+    files = {"a." + ext: {"text": json.dumps(case["f"])}, "b." + ext: {"text": json.dumps(case["t"])}}
+    argv = ["--no-status"] + case["argv"] + ["a." + ext, "b." + ext]
     r1, r2 = clirun.run_case(files, [{"argv": argv}, {"argv": argv}])
     # purity: diff() must not alter its inputs
     o = graphtage.BuildOptions(allow_key_edits="-k" not in case["argv"])
+    mutated = None
+    if "ext" in case:      # deep-nesting cases: the purity snapshot itself would exhaust the stack
+        return {"rc": r1["rc"], "exc": r1["exc"], "sha": hashlib.sha256(r1["out"].encode("utf-8", "surrogatepass")).hexdigest(),
+                "len": len(r1["out"]), "head": r1["out"][:300], "twice_same": (r1["rc"], r1["out"], r1["exc"]) == (r2["rc"], r2["out"], r2["exc"]),
+                "mutated": None}
     A, B = gj.build_tree(case["f"], o), gj.build_tree(case["t"], o)
     sa, sb = _snapshot(A), _snapshot(B)
-    mutated = None
     try:
         d = A.diff(B)
         list(A.get_all_edits(B))
@@ -92,7 +105,9 @@ def monitor(case, obs):
     if not isinstance(obs, dict) or obs.get("error"):
         return [{"prop": "C07", "key": "harness-error:" + str(obs.get("exc") if isinstance(obs, dict) else ""), "what": repr(obs)[:300]}]
     hits = []
-    if obs["exc"]:
+    if obs["exc"] and "ext" not in case:
+        # (deep-nesting cases may legitimately end in the interpreter's recursion limit: what matters for C07 is
+        # that the outcome is the same whatever ran before, which the seed / order comparisons check)
         hits.append({"prop": "C07", "key": "internal-error:" + obs["exc"], "what": f"command raised {obs['exc']}"})
     if not obs["twice_same"]:
         hits.append({"prop": "C07", "key": "repeat-differs", "what": "two invocations in one process produced different output or exit status"})
